@@ -620,10 +620,24 @@ def run_check(pid, tier, seed, replay=None):
         if rc != 0:
             model_ok = False
             ctx.broken("model: %s do not build" % ", ".join(mod.MODEL_TARGETS), out[-3000:])
+    import threading
+    limit = float(os.environ.get("VERIF_STAGE_LIMIT", "1500" if tier == "quick" else "5400"))
+
+    def watchdog(stage):
+        # a stage that does not come back (the implementation hangs on some input, or the model
+        # evaluation diverges) must not hang the check: report it and exit
+        ctx.broken("%s did not finish within %.0f s (hang in the implementation or in the model evaluation)" % (stage, limit),
+                   "stage watchdog fired")
+        rc = ctx.finish()
+        sys.stdout.flush()
+        os._exit(rc or 1)
     for stage in ("correspondence", "search"):
         fn = getattr(mod, stage, None)
         if fn is None:
             continue
+        timer = threading.Timer(limit, watchdog, args=(stage,))
+        timer.daemon = True
+        timer.start()
         try:
             if stage == "correspondence" and not model_ok:
                 ctx.notes.append("model does not compile: correspondence skipped")
@@ -631,5 +645,7 @@ def run_check(pid, tier, seed, replay=None):
             fn(ctx)
         except Exception:
             ctx.broken("%s crashed" % stage, traceback.format_exc())
+        finally:
+            timer.cancel()
     shutil.rmtree(os.path.join(SCRATCH, "%s.%d" % (pid, os.getpid())), ignore_errors=True)
     return ctx.finish()
